@@ -11,7 +11,7 @@ from __future__ import annotations
 from ..loader import ht, core, jsx_mod
 from .. import gen
 
-_SKIP_DOUBLE_FIELDS = {"calls", "_stored", "_tf"}
+_SKIP_DOUBLE_FIELDS = {"calls", "_stored", "_tf", "tagify", "_repr_html_"}
 
 
 def fp(x, _depth=0, _seen=None):
